@@ -177,6 +177,10 @@ func (f *Frame) resultFacts(r T) {
 	}
 }
 
+func (f *Frame) resultFactsTyped(r T, t types.Type) {
+	f.loadFactsB(r, t, f.alloc())
+}
+
 // autoInline: synthetic wrappers, and loop-free functions of at most a few blocks.
 func (f *Frame) autoInline(fn *ssa.Function) bool {
 	if fn.Synthetic != "" {
@@ -290,7 +294,11 @@ func (f *Frame) applyContract(v ssa.Value, con *Contract, fn *ssa.Function, args
 			if l.all {
 				continue
 			}
-			allowed[l.array] = append(allowed[l.array], l.ref(trp))
+			if l.pred != nil {
+				allowed[l.array] = append(allowed[l.array], T{"PRED:" + l.pred(trp, T{"r!PLACE", SInt}).S, SBool})
+			} else {
+				allowed[l.array] = append(allowed[l.array], l.ref(trp))
+			}
 			f.enc.stateSort[l.array] = l.sort
 		}
 		for _, l := range locs {
@@ -314,7 +322,7 @@ func (f *Frame) applyContract(v ssa.Value, con *Contract, fn *ssa.Function, args
 	rnames := resultNames(con, sig)
 	for i, r := range res {
 		env[rnames[i]] = tv{r, sig.Results().At(i).Type()}
-		f.resultFacts(r)
+		f.resultFactsTyped(r, sig.Results().At(i).Type())
 	}
 	f.applyGhost(con, env, old)
 	for _, e := range append(append([]*Clause{}, con.Ensures...), con.Assumes...) {
@@ -419,7 +427,7 @@ func (f *Frame) doInvoke(v ssa.Value, c *ssa.CallCommon, pos token.Pos) {
 		rn := resultNames(con, sig)
 		for i, r := range res {
 			env[rn[i]] = tv{r, sig.Results().At(i).Type()}
-			f.resultFacts(r)
+			f.resultFactsTyped(r, sig.Results().At(i).Type())
 		}
 		f.applyGhost(con, env, old)
 		for _, e := range append(append([]*Clause{}, con.Ensures...), con.Assumes...) {
@@ -572,7 +580,8 @@ func (f *Frame) doAppend(v ssa.Value, c *ssa.CallCommon, pos token.Pos) {
 				nl := Add(SLen(s), IntLit(n))
 				capv := f.enc.declConst(f.enc.fresh(f.sym("cap")), SInt)
 				f.enc.factAbout(capv, Le(nl, capv))
-				f.setVal(v, MkSlice(r, Zero, nl, capv))
+				res := f.setVal(v, MkSlice(r, Zero, nl, capv))
+				f.appendLemmaFacts(et, s, f.val(addSrc), res, c, content)
 				return
 			}
 		}
@@ -595,7 +604,29 @@ func (f *Frame) doAppend(v ssa.Value, c *ssa.CallCommon, pos token.Pos) {
 	nl := Add(SLen(s), tl)
 	capv := f.enc.declConst(f.enc.fresh(f.sym("cap")), SInt)
 	f.enc.factAbout(capv, Le(nl, capv))
-	f.setVal(v, MkSlice(r, Zero, nl, capv))
+	res := f.setVal(v, MkSlice(r, Zero, nl, capv))
+	f.appendLemmaFacts(et, s, t, res, c, content)
+}
+
+// appendLemmaFacts: instances of the registered (separately proved) list lemmas for c = append(a, b...).
+func (f *Frame) appendLemmaFacts(et types.Type, a, b, c T, cc *ssa.CallCommon, content T) {
+	names := f.p.appendLemmas[f.p.typeNameOrString(et)]
+	if len(names) == 0 || b.Sort != SSlice {
+		return
+	}
+	st := cc.Args[0].Type()
+	for _, n := range names {
+		lm := f.p.lemmas[n]
+		if lm == nil || len(lm.Params) != 3 {
+			panic(trErr{"appendlemma " + n + ": lemma with three slice parameters expected"})
+		}
+		tr := &Translator{f: f, cur: f.st, old: f.st, allocOld: f.enc.declConst("alloc@0", SInt)}
+		tr.bound = map[string]tv{lm.Params[0].Name: {a, st}, lm.Params[1].Name: {b, st}, lm.Params[2].Name: {c, st}}
+		body := tr.boolExpr(lm.Body)
+		f.enc.factAbout(c, body)
+		f.enc.factAbout(content, body)
+		f.p.usedLemmas[n] = true
+	}
 }
 
 // ---- defer ----
